@@ -60,6 +60,31 @@ func updateTargetDurationInM3u8(content []byte, currDuration int) ([]byte, error
 	return content, nil
 }
 
+// nextMediaSequenceInM3u8
+//
+// @param content m3u8文件内容
+//
+// @return 紧跟在该m3u8最后一个ts之后的序号，也即`EXT-X-MEDIA-SEQUENCE`的值加上列表中ts的数量
+func nextMediaSequenceInM3u8(content []byte) (int, error) {
+	seq := -1
+	count := 0
+	for _, line := range bytes.Split(content, []byte{'\n'}) {
+		if bytes.HasPrefix(line, []byte("#EXT-X-MEDIA-SEQUENCE:")) {
+			v, err := strconv.Atoi(string(bytes.TrimSpace(bytes.TrimPrefix(line, []byte("#EXT-X-MEDIA-SEQUENCE:")))))
+			if err != nil {
+				return 0, err
+			}
+			seq = v
+		} else if bytes.HasPrefix(line, []byte("#EXTINF:")) {
+			count++
+		}
+	}
+	if seq < 0 {
+		return 0, nazaerrors.Wrap(base.ErrHls)
+	}
+	return seq + count, nil
+}
+
 // CalcM3u8Duration
 //
 // @param content 传入m3u8文件内容
